@@ -361,9 +361,10 @@ func c14CutOffset(c *Ctx, r string) {
 	if f == nil {
 		return
 	}
+	// the requested entry index is the only int parameter (whatever its name)
 	var idx *ssa.Parameter
 	for _, p := range f.Params {
-		if p.Name() == "index" {
+		if b, ok := p.Type().Underlying().(*types.Basic); ok && b.Kind() == types.Int {
 			idx = p
 		}
 	}
